@@ -21,6 +21,8 @@ def specRun (s : St) (ops : List Op) : St := ops.foldl specStep s
 /-- the OAM source as the code implements it: a mode change into mode 2 -/
 def modeInto2 (k : Nat) : Prop := modeAt k = 2 ∧ modeAt (k - 1) ≠ 2
 
+instance (k : Nat) : Decidable (modeInto2 k) := by unfold modeInto2; infer_instance
+
 /-- exact STAT request of the model for the cycle from `s` to `s.cycle` -/
 def statExact (s : St) : Prop :=
   match s.since with
@@ -323,6 +325,43 @@ theorem run_rel (ops : List Op) (s : St) (p : Ppu) (h : Rel s p) :
     obtain ⟨q, hq, hq'⟩ := ih (specStep s op) r.p hrel
     refine ⟨q, ?_, hq'⟩
     simp only [run, hr]; exact hq
+
+/-! ### projections of the specification run -/
+
+/-- the specification state of C13 is just the time since switch-on -/
+def sinceStep (s : Option Nat) : Op → Option Nat
+  | .tick => cycle s
+  | .wLCDC v => lcdc s (v.testBit 7)
+  | _ => s
+
+/-- time since switch-on after a schedule from power-on (the LCD is on at power-on) -/
+def sinceOf (ops : List Op) : Option Nat := ops.foldl sinceStep (some 0)
+
+theorem specRun_since (ops : List Op) (s : St) :
+    (specRun s ops).since = ops.foldl sinceStep s.since := by
+  induction ops generalizing s with
+  | nil => rfl
+  | cons op ops ih =>
+    simp only [specRun, List.foldl_cons] at ih ⊢
+    rw [ih]; cases op <;> rfl
+
+theorem specRun_init_since (ops : List Op) : (specRun St.init ops).since = sinceOf ops :=
+  specRun_since ops St.init
+
+/-- `k` machine cycles without any write -/
+theorem specRun_ticks (k : Nat) (s : St) (n : Nat) (h : s.since = some n) :
+    (specRun s (List.replicate k .tick)).since = some (n + k) ∧
+    (specRun s (List.replicate k .tick)).stat = s.stat ∧
+    (specRun s (List.replicate k .tick)).lyc = s.lyc := by
+  induction k generalizing s n with
+  | zero => exact ⟨h, rfl, rfl⟩
+  | succ k ih =>
+    have h' : (specStep s .tick).since = some (n + 1) := by
+      simp [specStep, St.cycle, Spec.Lcd.cycle, h]
+    obtain ⟨a, b, c⟩ := ih (specStep s .tick) (n + 1) h'
+    simp only [List.replicate_succ, specRun, List.foldl_cons] at a b c ⊢
+    refine ⟨?_, b, c⟩
+    rw [a]; congr 1; omega
 
 /-- after ANY schedule from power-on the next operation does not panic, keeps the simulation and
     raises exactly the requests the closed form prescribes -/
